@@ -1602,4 +1602,97 @@ Proof.
   - exists []. split; [constructor|]. split; [exists [9]; reflexivity|]. split; [exact Hinv|]. split; reflexivity.
 Qed.
 
+(* ---- the trace law spelled out ---- *)
+Lemma tlaw_reads a0 u0 cur T os T' : Forall (fun o => obs_switch o = None) os -> tlaw a0 u0 cur T os T' ->
+  T = flat_map obs_bytes os ++ T'.
+Proof.
+  intros Hf. revert T. induction Hf as [|o t Ho Ht IH]; intros T H; cbn [tlaw flat_map app] in *.
+  - symmetry. exact H.
+  - rewrite Ho in H. destruct H as (T1 & E1 & H1). rewrite E1, (IH T1 H1), app_assoc. reflexivity.
+Qed.
+
+(* one selection of another stream between two runs of read operations *)
+Lemma tlaw_two_epochs a0 u0 cur T os1 o os2 T' s :
+  Forall (fun o => obs_switch o = None) os1 -> Forall (fun o => obs_switch o = None) os2 ->
+  obs_switch o = Some s -> optN_eqb s cur = false ->
+  tlaw a0 u0 cur T (os1 ++ o :: os2) T' ->
+  (exists T1, T = flat_map obs_bytes os1 ++ T1) /\ F s a0 u0 = flat_map obs_bytes os2 ++ T'.
+Proof.
+  intros H1 H2 Ho Hne. revert T. induction H1 as [|o1 t Ho1 Ht IH]; intros T H; cbn [app tlaw flat_map] in *.
+  - rewrite Ho, Hne in H. split; [exists T; reflexivity|]. apply (tlaw_reads _ _ _ _ _ _ H2 H).
+  - rewrite Ho1 in H. destruct H as (T1 & E1 & H). destruct (IH T1 H) as [(T2 & E2) E3].
+    split; [|exact E3]. exists T2. rewrite E1, E2, app_assoc. reflexivity.
+Qed.
+
+(* scripts that only read (no set_stream, no writeable) *)
+Inductive rd_only : list N -> Prop :=
+| RO_nil : rd_only []
+| RO_read n rest : rd_only rest -> rd_only (1 :: n :: rest)
+| RO_all rest : rd_only rest -> rd_only (2 :: rest)
+| RO_fill k rest : rd_only rest -> rd_only (3 :: k :: rest)
+| RO_exit d c rest : rd_only (8 :: d :: c :: rest)
+| RO_fail k rest : rd_only (9 :: k :: rest).
+
+Lemma rd_only_rd_script script : rd_only script -> rd_script script.
+Proof. induction 1; constructor; assumption. Qed.
+
+Lemma rd_only_obs script os : rd_only script -> obs_of script os -> Forall (fun o => obs_switch o = None) os.
+Proof.
+  intros H. revert os. induction H as [|n rest H IH|rest H IH|k rest H IH|d c rest|k rest]; intros os Ho;
+    inversion Ho; subst; try constructor; try reflexivity; try (apply IH; assumption).
+Qed.
+
+(* item 1 (C09) along a handler that only reads: the bytes observed, in order, followed by what is still to come,
+   are what was to come at the start: nothing lost, duplicated, reordered or taken from another stream *)
+Theorem run_handler_read_only script f r w : rd_only script -> pinv (rsp r) -> bytes_ok (remaining w) ->
+  match run_handler maxc f script r w with
+  | Ok (st, r') w' =>
+      exists os fin, obs_of script os /\ events w' = fin :: flat_map obs_events (rev os) ++ events w /\
+        K (abs (rsp r)) (remaining w) = flat_map obs_bytes os ++ K (abs (rsp r')) (remaining w')
+  | Halt o w' =>
+      exists os rest, obs_of script os /\ events w' = flat_map obs_events (rev os) ++ events w /\
+        K (abs (rsp r)) (remaining w) = flat_map obs_bytes os ++ rest
+  end.
+Proof.
+  intros Hs Hinv Hrem.
+  pose proof (run_handler_reads (abs (rsp r)) (remaining w) script (rd_only_rd_script _ Hs) f r w Hinv Hrem
+                ltac:(intros sg _; reflexivity)) as H.
+  destruct (run_handler maxc f script r w) as [[st r'] w'|o w']; destruct H as (os & Ho & H).
+  - destruct H as ((fin & H1) & _ & _ & H4). exists os, fin. split; [exact Ho|]. split; [exact H1|].
+    apply (tlaw_reads _ _ _ _ _ _ (rd_only_obs _ _ Hs Ho) H4).
+  - destruct H as (H1 & T' & H2). exists os, T'. split; [exact Ho|]. split; [exact H1|].
+    apply (tlaw_reads _ _ _ _ _ _ (rd_only_obs _ _ Hs Ho) H2).
+Qed.
+
+(* the general form, started from the handler's own initial state *)
+Corollary run_handler_reads_top script f r w : rd_script script -> pinv (rsp r) -> bytes_ok (remaining w) ->
+  hr_post script (abs (rsp r)) (remaining w) r w (run_handler maxc f script r w).
+Proof. intros Hs Hinv Hrem. apply run_handler_reads; try assumption. intros sg _. reflexivity. Qed.
+
+(* ---- the invariant rinv is kept (with Async/ConnTotal.v) ---- *)
+Lemma poll_input_rinv fuel dest r w p r' w' : rinv r -> world_ok w -> (length (wscript w) + nb w + 2 <= fuel)%nat ->
+  poll_input maxc fuel dest r w = (p, r', w') -> rinv r' /\ world_ok w'.
+Proof.
+  intros [G A] Wok Hf E.
+  destruct (poll_input_reads fuel dest r w p r' w' (rinv_pinv r (conj G A)) (world_ok_remaining w Wok) Hf E) as (dl & AC & _).
+  pose proof (poll_input_ok (fun b => b) maxc fuel dest r w G Wok Hf) as H. rewrite E in H.
+  assert (X : rgood r' /\ wstep w w').
+  { destruct p as [[[n b]|k]| |]; [|destruct H as [H _]|destruct H as [H _]|destruct H as [H _]];
+      destruct H as (H1 & H2 & _); split; assumption. }
+  destruct X as [G' S]. split; [split; [exact G'|apply (ac_inv _ _ _ _ _ _ AC)]|apply (ws_ok _ _ S Wok)].
+Qed.
+
+Lemma await_input_rinv fuel dest r w x r' w' : rinv r -> world_ok w ->
+  (length (rscript w) + length (wscript w) + sm w + 1 <= fuel)%nat ->
+  await_input maxc fuel dest r w = Ok (x, r') w' -> rinv r' /\ world_ok w'.
+Proof.
+  intros [G A] Wok Hf E.
+  pose proof (await_input_reads fuel dest r w (rinv_pinv r (conj G A)) (world_ok_remaining w Wok)) as H1. rewrite E in H1.
+  cbn [ai_post] in H1. destruct H1 as (dl & AC & _).
+  pose proof (await_input_ok (fun b => b) maxc fuel dest r w G Wok Hf) as H. rewrite E in H.
+  assert (X : rgood r' /\ wstep w w').
+  { destruct x as [[n b]|k]; [|destruct H as [H _]]; destruct H as (H1 & H2 & _); split; assumption. }
+  destruct X as [G' S]. split; [split; [exact G'|apply (ac_inv _ _ _ _ _ _ AC)]|apply (ws_ok _ _ S Wok)].
+Qed.
+
 End Reads.
